@@ -23,7 +23,7 @@ use std::collections::{BTreeMap, BTreeSet};
 use std::panic::{catch_unwind, AssertUnwindSafe};
 
 pub type SimApp =
-    App<RecBank, MockApiBech32, SimStorage, RecCustom, RecWasm, RecStaking, RecDistr, RecIbc, RecGov, RecStargate>;
+    App<RecBank, crate::contract::SimApi, SimStorage, RecCustom, RecWasm, RecStaking, RecDistr, RecIbc, RecGov, RecStargate>;
 
 pub const PREFIXES: [&str; 4] = ["cosmwasm", "juno", "osmo", "x"];
 
@@ -60,6 +60,9 @@ pub struct Case {
     /// the AppBuilder (the keeper's own builder steps must keep it)
     #[serde(default)]
     pub prestore: bool,
+    /// the chain uses cosmwasm-std's own MockApi (as App::default() does) instead of the repo's MockApiBech32
+    #[serde(default)]
+    pub std_api: bool,
     pub ops: Vec<Op>,
 }
 
@@ -121,7 +124,7 @@ impl Sim {
         let world = World::new();
         set_current_world(Some(world.clone()));
         let prefix: &'static str = PREFIXES[case.prefix as usize % PREFIXES.len()];
-        let api = MockApiBech32::new(prefix);
+        let api = crate::contract::SimApi::new(prefix, case.std_api);
         let n_acc = case.n_accounts.clamp(1, 8);
         let n_den = case.n_denoms.clamp(1, 4);
         let n_val = case.n_validators.min(3);
@@ -167,14 +170,14 @@ impl Sim {
             }
         }
         let block = mock_env().block;
-        let fallback_api = MockApiBech32::new(prefix);
+        let fallback_api = crate::contract::SimApi::new(prefix, case.std_api);
         let mut model = Model::new(names.clone(), block.chain_id.clone(), block.height, block.time.nanos());
         model.fault_plan = world.0.borrow().fault_plan.clone();
         // address of an instantiation whose entry point never ran (so that nothing could be learned):
         // ask the repo's default generator, with the model's instance count
         let adv = case.adv_addr;
         {
-            let vapi = MockApiBech32::new(prefix);
+            let vapi = crate::contract::SimApi::new(prefix, case.std_api);
             model.addr_validator = Some(Box::new(move |a: &str| {
                 use cosmwasm_std::Api;
                 vapi.addr_validate(a).is_ok()
